@@ -17,6 +17,14 @@ bound_self, compare)`): which argument receives `compare.data`, `self.data`, `bo
          for max_n in {0,1,2,7} x n in 0..max_n (path conditions over n and max_n only are decided, in any spelling; all others
          are left open): a path that goes round the loop leaves n <= max_n, a returning path reports iterations <= max_n
          (so a round is started only while n < max_n), and the loop is not left on the budget test alone while n < max_n.
+ R-PROV  the public wrapper `<Decimal as FixedPrecision>::exp_cmp` returns ref_exp_cmp's result unmodified: on every returning path
+         the returned value IS the callee's result and nothing is written into it; no ExpCmpOrdering is constructed, and none of
+         its fields is assigned or mutably borrowed, anywhere else in pallas-math (the derived Clone copies an existing value).
+ R-PROV  the in/out helpers ref_exp_cmp applies to its running terms (`scale`, `div`: functions with a `&mut IBig` parameter)
+         store, on every path, a value computed from their input: a definition of the stored variable that does not depend on
+         the input (a constant) must be followed, on every path to the store, by the call that recomputes it from the input —
+         a constant substituted *after* the division (flush-to-zero, clamp) is reported.  Necessary for the error term that
+         reaches the bounds to be the scaled product and not a replacement value; the arithmetic itself is not decided.
 Not decided: the series (that rop and E are the Taylor partial sum and the Lagrange remainder), the EPS cut-off, the exact
 iteration count."""
 import re
@@ -279,6 +287,8 @@ def run(tier):
         check_budget(res, P, f, roles, next(iter(counters)), fidx["iterations"])
     elif it_ok:
         res.violation("budget:counter", "the result sites use different iteration counters; the budget clause cannot be evaluated", where=where(f), rule="R-TABLE")
+    check_wrapper(res, P, f)
+    check_helpers(res, P, f)
     res.assumptions += ["dashu IBig operator traits implement integer +, -, *, comparison", "the output parameter holds the running approximation (the series itself is not decided)"]
     return finish(res,
                   explanation="Direction clause of C16: each point where ref_exp_cmp concludes GT (LT) is control dependent on the true outcome of the strict "
@@ -286,7 +296,7 @@ def run(tier):
                               "their leaves (roles of the parameters taken from the public exp_cmp entry point); the same error variable E, computed from x, is "
                               "used on both sides; estimation takes only those conclusions and iterations is the loop counter. Does NOT decide that rop/E are "
                               "the Taylor sum and the Lagrange remainder, the EPS cut-off, or the iteration count against the reference.",
-                  rule_text="R-CDEP(GT/LT conclusion on compare vs rop +/- error*bound_x) + R-PROV(result fields)",
+                  rule_text="R-CDEP(GT/LT conclusion on compare vs rop +/- error*bound_x) + R-PROV(result fields) + R-TABLE(strict budget) + R-PROV(wrapper returns the result unmodified; helpers store input-derived values)",
                   trusted_base=["rustc MIR", "dashu-int operator semantics"])
 
 
@@ -419,3 +429,119 @@ def loop_header(f, bb):
         if all(c in dom.get(x, ()) for x in cyc):
             return c
     return bb
+
+
+def check_wrapper(res, P, f):
+    from pv.tabulate import tabulate
+    from pv.panic import field_writers
+    entry = P.one(r"^<pallas_math::math_dashu::Decimal as pallas_math::math::FixedPrecision>::exp_cmp$")
+    bad = None
+    n = 0
+    for p in tabulate(entry, P, 1024):
+        if p.end != "return":
+            continue
+        n += 1
+        r = strip(p.ret, None) if p.ret is not None else ("unknown",)
+        if not (r[0] == "call" and r[1] == f.path):
+            bad = "on some path it returns %s instead of the value ref_exp_cmp returned" % sym_str(r, 80)
+            break
+        for pl, val in p.writes:
+            root = pl
+            while root[0] in ("field", "deref", "downcast", "index", "ref"):
+                root = root[1]
+            if root == r or (root[0] == "local" and RESULT in entry.local_ty(root[1])):
+                bad = "it overwrites `%s` of the result with %s before returning it" % (sym_str(pl, 60).rsplit(".", 1)[-1], sym_str(val, 60))
+                break
+        if bad:
+            break
+    if bad or not n:
+        res.violation("wrapper:result-modified", "FixedPrecision::exp_cmp (Decimal) must hand back ref_exp_cmp's result unchanged, but %s" % (bad or "it has no returning path"),
+                      where=where(entry), rule="R-PROV")
+    else:
+        res.ok("wrapper:result-unmodified", "R-PROV", "every returning path returns the callee's result with no write into it (%d path(s))" % n)
+    # constructions / field writes elsewhere
+    extra = []
+    for g in P.fns.values():
+        if g.crate != "pallas_math" or g is f or "::tests::" in g.path:
+            continue
+        for bi, si, rv in flow.aggregates(g, "^" + re.escape(RESULT) + "$"):
+            copies = all((flow.origin_chain(g.sym_operand(x)) or ((None,), None))[0][0] == "param" and RESULT in g.local_ty(flow.origin_chain(g.sym_operand(x))[0][1])
+                         for x in rv["fields"])
+            if not copies:
+                extra.append(("result-constructed:%s" % g.path.split("pallas_math::")[-1], "%s constructs an ExpCmpOrdering of its own" % g.path, g))
+    for fld in ("estimation", "iterations", "approx"):
+        for w in field_writers(P, RESULT, fld):
+            if w != f.path and "::tests::" not in w:
+                extra.append(("result-field-written:%s:%s" % (w.split("pallas_math::")[-1], fld), "%s writes (or mutably borrows) ExpCmpOrdering.%s" % (w, fld), P.fns[w]))
+    for k, msg, g in extra:
+        res.violation(k, msg + ": the comparison's conclusion must come from ref_exp_cmp alone", where=where(g), rule="R-PROV")
+    if not extra:
+        res.ok("result:only-from-ref_exp_cmp", "R-PROV", "no other construction of ExpCmpOrdering and no write to its fields in pallas-math")
+
+
+def check_helpers(res, P, f):
+    helpers = []
+    for g, t, bi in P.callees(f):
+        if g.crate == "pallas_math" and g is not f and g not in helpers and \
+                any(re.match(r"^&(?:'\w+ )?mut dashu_int::ibig::IBig$", g.local_ty(i)) for i in range(1, g.argc + 1)):
+            helpers.append(g)
+    res.floor("in/out helpers of ref_exp_cmp", len(helpers), 1)
+    for g in helpers:
+        outs = [i for i in range(1, g.argc + 1) if re.match(r"^&(?:'\w+ )?mut dashu_int::ibig::IBig$", g.local_ty(i))]
+        key = "helper:%s" % g.name
+        has_input = lambda sym, tainted: any((x[0] == "param") or (x[0] == "local" and x[1] in tainted) for x in sym_walk(sym))
+        # operands of every definition / in-place update of each local
+        defs = {}      # local -> [(bb, [operand syms], kind)]
+        for l, ds in g.defs().items():
+            for bi, si, kind, payload in ds:
+                if kind == "assign":
+                    defs.setdefault(l, []).append((bi, [g.sym_rvalue(payload[2], 20)], "def"))
+                elif kind == "call":
+                    defs.setdefault(l, []).append((bi, [g.sym_operand(a) for a in payload["args"]], "def"))
+        for bi, t in g.calls():
+            args = [g.sym_operand(a) for a in t["args"]]
+            for i, a in enumerate(args):
+                ch = flow.origin_chain(a)
+                if ch is not None and ch[0][0] == "local" and call_is_mut_receiver(g, bi, i):
+                    defs.setdefault(ch[0][1], []).append((bi, [x for j, x in enumerate(args) if j != i], "update"))
+        tainted = set()
+        changed = True
+        while changed:
+            changed = False
+            for l, ds in defs.items():
+                if l not in tainted and any(has_input(o, tainted) for _, ops, _ in ds for o in ops):
+                    tainted.add(l)
+                    changed = True
+        bad = None
+        n_store = 0
+        for bi, si, st in g.statements():
+            if st[0] != "a" or isinstance(st[1], int) or st[1][0] not in outs or [e[0] for e in st[1][1]] != ["deref"]:
+                continue
+            n_store += 1
+            v = g.sym_rvalue(st[2], 20)
+            leaves = [x for x in sym_walk(v) if x[0] == "local"]
+            if not leaves and not any(x[0] == "param" for x in sym_walk(v)):
+                bad = "it stores %s, which does not depend on its input" % sym_str(v, 60)
+                break
+            for lf in leaves:
+                L = lf[1]
+                if L not in tainted:
+                    bad = "it stores `%s`, which is never computed from the input" % (g.local_name(L) or "_%d" % L)
+                    break
+                recompute = [b for b, ops, kind in defs.get(L, []) if any(has_input(o, tainted - {L}) for o in ops)]
+                for b, ops, kind in defs.get(L, []):
+                    if kind == "def" and not any(has_input(o, tainted) for o in ops):
+                        if b not in recompute and g.can_reach(b, bi, avoid=tuple(r for r in recompute if r != b)):
+                            bad = "`%s` is replaced by a value that does not depend on the input (%s) after it was computed, and that value reaches the store" % (
+                                g.local_name(L) or "_%d" % L, "; ".join(sym_str(o, 40) for o in ops) or "a constant")
+                            break
+                if bad:
+                    break
+            if bad:
+                break
+        if bad:
+            res.violation(key + ":constant-result", "%s: %s — the helper must return the scaled/divided value of its argument on every path" % (g.path, bad), where=where(g), rule="R-PROV")
+        elif not n_store:
+            res.violation(key + ":no-store", "%s never stores through its `&mut IBig` parameter" % g.path, where=where(g), rule="R-PROV")
+        else:
+            res.ok(key + ":input-derived", "R-PROV", "every value stored through the output parameter is computed from the input (%d store(s))" % n_store)
